@@ -3,7 +3,8 @@
 # round 1 -> /tmp/seed_<ID>, seeds <ID>-1..3; round R -> /tmp/seed<R>_<ID>, seeds <ID>-(3R-2)..(3R)
 id=$1; r=${2:-1}; pid=${3:-$id}
 if [ "$r" = "1" ]; then root=/tmp/seed_$id; else root=/tmp/seed${r}_$id; fi
-off=$(( (r - 1) * 3 ))
+off=$(ls -d /verif/seeded/$id-* 2>/dev/null | wc -l)   # numbering continues after the seeds already stored
+[ -n "$SEED_OFF" ] && off=$SEED_OFF
 for k in 1 2 3; do
   [ -f $root/out/$k/patch.diff ] || { echo "$id round $r slot $k: no patch"; continue; }
   res=$(SEED_ROOT=$root /verif/engine/confirm_seed.sh $id $k)
